@@ -266,7 +266,8 @@ func c06run(out *evid.Out, f *evid.Flags, run int) {
 			// ConsoleWriter in front of a diode writer (ring larger than the run): the destination behind the diode is slow
 			// or blocked while the ConsoleWriter recycles its buffer for the next event
 			a := newW6("console-over-diode", true, delay, viol)
-			dw := diode.NewWriter(a, 8192, 0, func(missed int) { viol("diode-dropped", fmt.Sprintf("the diode reported %d dropped messages although its ring is larger than the run", missed)) })
+			// the ring holds every event of the run (G*K, plus slack): nothing may be dropped
+			dw := diode.NewWriter(a, 2*G*K+1024, 0, func(missed int) { viol("diode-dropped", fmt.Sprintf("the diode reported %d dropped messages although its ring (%d) is larger than the run (%d events)", missed, 2*G*K+1024, G*K)) })
 			closers = append(closers, dw)
 			return zerolog.ConsoleWriter{Out: dw, NoColor: true, TimeFormat: time.RFC3339, TimeLocation: time.UTC}, []*cw6{a}
 		case 1, 9:
